@@ -44,6 +44,33 @@ def sh(cmd, cwd=None, env=None, timeout=None, stdin=None):
         return 124, out + "\n[timeout after %ss]" % timeout, time.time() - t0
 
 
+def modfile(tag):
+    """A go.mod for the harness module whose `replace` points at REPO (so VERIF_REPO=<scratch copy> works and
+    nothing in /verif/harness is rewritten at run time); requirements are copied from REPO's go.mod."""
+    d = os.path.join(BUILD, "gomod_" + tag)
+    os.makedirs(d, exist_ok=True)
+    reqs = []
+    try:
+        src = open(os.path.join(REPO, "go.mod")).read()
+        for blk in re.findall(r"require \((.*?)\)", src, re.S):
+            for l in blk.strip().split("\n"):
+                l = l.split("//")[0].strip()
+                if l:
+                    reqs.append(l)
+    except OSError:
+        pass
+    txt = "module wmverif\n\ngo 1.21\n\nrequire (\n\tgithub.com/ThreeDotsLabs/watermill v0.0.0\n%s)\n\nreplace github.com/ThreeDotsLabs/watermill => %s\n" % (
+        "".join("\t%s\n" % r for r in reqs), REPO)
+    with open(os.path.join(d, "go.mod"), "w") as f:
+        f.write(txt)
+    try:
+        import shutil
+        shutil.copyfile(os.path.join(REPO, "go.sum"), os.path.join(d, "go.sum"))
+    except OSError:
+        pass
+    return os.path.join(d, "go.mod")
+
+
 def load_prop(pid):
     path = os.path.join(VERIF, "checks", pid.lower() + ".py")
     spec = importlib.util.spec_from_file_location("prop_" + pid.lower(), path)
@@ -121,18 +148,14 @@ class Run:
 
     # ---------------------------------------------------------------- extractor
     def extract(self):
-        try:
-            import shutil
-            shutil.copyfile(os.path.join(REPO, "go.sum"), os.path.join(HARNESS, "go.sum"))
-        except OSError:
-            pass
-        rc, out, s = sh(["go", "build", "-o", os.path.join(BUILD, "extract"), "./cmd/extract"], cwd=HARNESS, env=GOENV)
+        self.modfile = modfile(self.pid)
+        rc, out, s = sh(["go", "build", "-modfile=" + self.modfile, "-o", os.path.join(BUILD, "extract_" + self.pid), "./cmd/extract"], cwd=HARNESS, env=GOENV)
         if rc != 0:
             self.step("build extractor", False, s, out)
             self.broken.append({"kind": "build", "name": "extractor", "detail": out[-2000:]})
             return
         os.makedirs(os.path.join(VERIF, "facts", "actual"), exist_ok=True)
-        rc, out, s2 = sh([os.path.join(BUILD, "extract"), "-repo", REPO, "-lean", os.path.join(LEAN, "WmModel", "Gen"),
+        rc, out, s2 = sh([os.path.join(BUILD, "extract_" + self.pid), "-repo", REPO, "-lean", os.path.join(LEAN, "WmModel", "Gen"),
                           "-facts", os.path.join(VERIF, "facts", "actual"), "-only", self.pid])
         self.step("extract facts + generated Lean", rc == 0, s + s2, out)
         exp_path = os.path.join(VERIF, "facts", "expected", self.pid + ".json")
@@ -240,17 +263,12 @@ class Run:
     # ---------------------------------------------------------------- harness
     def build_harness(self):
         P = self.P
-        try:
-            import shutil
-            shutil.copyfile(os.path.join(REPO, "go.sum"), os.path.join(HARNESS, "go.sum"))
-        except OSError:
-            pass
         self.bin = os.path.join(BUILD, "h_" + P["harness"])
         if os.path.exists(self.bin):
             os.remove(self.bin)   # never run a stale binary
-        cmd = ["go", "build", "-tags", "verif"] + (["-race"] if P.get("race") else []) + ["-o", self.bin, "./cmd/" + P["harness"]]
+        cmd = ["go", "build", "-modfile=" + self.modfile, "-tags", "verif"] + (["-race"] if P.get("race") else []) + ["-o", self.bin, "./cmd/" + P["harness"]]
         rc, out, s = sh(cmd, cwd=HARNESS, env=GOENV, timeout=900)
-        self.step("build harness from %s (%s)" % (REPO, " ".join(cmd[1:5])), rc == 0, s, out)
+        self.step("build harness from %s (%s)" % (REPO, " ".join(cmd[2:5])), rc == 0, s, out)
         if rc != 0:
             self.broken.append({"kind": "build", "name": "harness " + P["harness"], "detail": out[-2000:]})
             return False
@@ -261,7 +279,7 @@ class Run:
         out_path = os.path.join(BUILD, "%s%s.cases" % (self.pid, tag))
         if os.path.exists(out_path):
             os.remove(out_path)
-        cmd = [self.bin, "-tier", tier, "-seed", str(seed), "-out", out_path]
+        cmd = [self.bin, "-tier", tier, "-seed", str(seed), "-out", out_path] + list(P.get("harness_args", []))
         if replay is not None:
             cmd += ["-replay", replay]
         to = P.get("harness_timeout_s", {"quick": 240, "thorough": 1500})[tier]
@@ -404,6 +422,9 @@ class Run:
                     searched += len(c)
                 if self.violations:
                     break
+        if P.get("extra"):
+            # property-specific additional obligations; may append to self.broken / self.violations and add keys to self.cov
+            P["extra"](self)
         self.write_evidence(cases, stats, notes, verdicts, corpus_n, searched)
         return self.report()
 
